@@ -22,7 +22,7 @@ from harness import common, tg
 
 REQUIRED = ["mutation_resets_memo", "nonquery_keeps_no_solver", "query_preserves_graph", "replica_same_graph",
             "fresh_is_cold", "query_fresh_partial", "query_fresh_after_mutation", "query_fresh_solverfree",
-            "cyclic_witness", "query_fresh_not_full"]
+            "query_fresh_acyclic", "query_fresh_acyclic_history", "repeated_query_stable", "cyclic_witness", "query_fresh_not_full"]
 
 WORKERS = 14
 SOLVER_Q = ("has", "visible", "filter")
@@ -255,6 +255,41 @@ def reportable(cfg, drv, ops):
   return (a, b)
 
 
+def _graph_sig(real):
+  """everything the solver can see, read through the Python API"""
+  return (tuple((tuple(m.id for m in n.incoming), n.condition.id if n.condition is not None else None)
+                for n in real.nodes),
+          tuple((b.variable.id, tuple((o.where.id, tuple(sorted(tuple(sorted(x.id for x in ss)) for ss in o.source_sets)))
+                                      for o in b.origins)) for b in real.b))
+
+
+def mechanism_failure(cfg, ops):
+  """Second oracle (theorem mutation_resets_memo on the real program): an operation that changes the graph
+  while a solver is alive must drop it, i.e. the next solver query creates a new solver
+  (Program.calculate_metrics().solver_metrics grows).  Returns a failure dict or None."""
+  real = tg.Real(cfg)
+  alive_count = None      # number of solvers when the last solver query returned
+  changed_since = None    # description of the first graph change since then
+  for i, op in enumerate(ops):
+    if op[0] == "query":
+      r = real.apply(op)
+      if op[1] in SOLVER_Q and r not in (None, "bad-op"):
+        n = len(real.p.calculate_metrics().solver_metrics)
+        if n == 0:
+          continue      # the query did not reach the solver (Filter shortcut)
+        if alive_count is not None and changed_since is not None and n == alive_count:
+          return {"ops": [tg.op_text(o) for o in ops[:i + 1]],
+                  "oracle": "a graph-changing operation must drop the live solver (mutation_resets_memo)",
+                  "graph_changed_by": changed_since, "solvers_before": alive_count, "solvers_after": n}
+        alive_count, changed_since = n, None
+    else:
+      before = _graph_sig(real) if alive_count is not None and changed_since is None else None
+      real.apply(op)
+      if before is not None and _graph_sig(real) != before:
+        changed_since = tg.op_text(op)
+  return None
+
+
 def witnesses(res):
   cfg = common.load_pytype()
   known, fixed = common.known_findings("C08")
@@ -305,6 +340,16 @@ def search(res, rng, disagreements, pfail):
               "cyclic": tg.history_shape(small).cyclic()}
     return None
 
+  def try_mechanism(ops):
+    f = mechanism_failure(cfg, ops)
+    if f is None:
+      return None
+    cand = [tg.parse_op(t) for t in f["ops"]]
+    last = cand[-1]
+    small = common.ddmin(cand, lambda c: mechanism_failure(cfg, c) is not None, budget_s=20.0,
+                         keep=lambda o: o is last)
+    return mechanism_failure(cfg, small) or f
+
   cands = [[tg.parse_op(t) for t in d["ops"]] for d in disagreements if d.get("ops")]
   cands.sort(key=len)
   examined = 0
@@ -318,6 +363,14 @@ def search(res, rng, disagreements, pfail):
       f = {"ops": [tg.op_text(o) for o in ops], "exception": repr(e)}
     if f:
       found.append(f)
+  if not found:
+    # answers agree with the fresh replica everywhere: is the invalidation mechanism itself broken?
+    for ops in cands[:40]:
+      if time.time() - t0 > budget or found:
+        break
+      f = try_mechanism(ops)
+      if f:
+        found.append(f)
   # neighbourhood: short exhaustive sequences and fresh random histories
   if len(found) < 2:
     pool = list(itertools.islice(exhaustive_histories(3), 0, None, 3))
@@ -332,13 +385,14 @@ def search(res, rng, disagreements, pfail):
     while time.time() - t0 < budget and len(found) < 2:
       examined += 1
       ops, _, _ = random_history(cfg, rng, rng.randrange(15, 80))
-      f = try_history(ops)
+      f = try_history(ops) or (try_mechanism(ops) if not found else None)
       if f:
         found.append(f)
   res.cov["search"] = {"histories_examined": examined, "wall_s": round(time.time() - t0, 1),
                        "oracle": "fresh replica rebuilt from the recorded history, compared at every query; a failure on a "
                                  "cyclic history whose live and fresh answers are both reproduced by the model is the listed "
-                                 "known finding (not reported)"}
+                                 "known finding (not reported); second oracle: a graph-changing operation must drop the live "
+                                 "solver (solver count from calculate_metrics)"}
   return found
 
 
